@@ -301,7 +301,7 @@ _search_prop("C07", [ENTRY_CHEAP[0]] + ENTRY_CHEAP[2:5] + ENTRY + DRIVER, ["sear
 _search_prop("C08", ENTRY_CHEAP[2:4] + DRIVER + ENTRY[4:8], ["search::get_best_move_until_stop", "search::get_best_move_entry (killer table it allocates)"], ["c06_entry_k2", "c08_driver_limit2_cached"])
 _search_prop("C09", NODE + DEPTH1 + QUIES + ENTRY[4:], ["search::get_best_move_score", "search::get_best_move_score_depth_1", "search::quiescence_search", "search::get_best_move_entry", "search::move_score (through the sort)", "Move::{is_tactical_move,index_history}"], ["c09_node_k4", "c06_entry_k4"])
 _search_prop("C10", NOMOVES + DRIVER + ENTRY_CHEAP[2:4] + ENTRY[:2], ["search::get_best_move_score (no-move rule)", "search::get_best_move_score_depth_1 (no-move rule)", "search::quiescence_search (no-move rule)", "search::get_best_move_until_stop (stop on mate score)", "search::get_best_move_entry (root without moves)"], ["c06_entry_k0"])
-_search_prop("C18", DRIVER + [S + "c18_driver_pv_k3"] + NODE[:4], ["search::get_best_move_until_stop (line reconstruction)", "search::get_best_move_score (the cached move it leaves is one of the node's moves)"], ["c08_driver_limit2_cached", "c09_node_k2"])
+_search_prop("C18", DRIVER + NODE[:4], ["search::get_best_move_until_stop (line reconstruction)", "search::get_best_move_score (the cached move it leaves is one of the node's moves)"], ["c08_driver_limit2_cached", "c09_node_k2"])
 
 
 def _c13(tier, seed):
